@@ -554,9 +554,14 @@ func (l *loopState) notifySteps() { //nolint:gocognit
 		// untypedInputData stores the resolved data
 		untypedInputData, err := l.resolveExpressions(inputData, l.data)
 		if err != nil {
-			// An error here often indicates a locking issue in a step provider. This could be caused
+			// The expressions may legitimately fail at run time (e.g. an omitted optional input or a
+			// failing conversion function), so this is reported as a workflow error instead of a panic.
+			// An error here can also indicate a locking issue in a step provider. This could be caused
 			// by the lock not being held when the output was marked resolved.
-			panic(fmt.Errorf("cannot resolve expressions for %s (%w)", nodeID, err))
+			l.logger.Errorf("Cannot resolve expressions for %s (%v)", nodeID, err)
+			l.reportError(fmt.Errorf("cannot resolve expressions for %s (%w)", nodeID, err))
+			l.cancel()
+			return
 		}
 
 		// This switch checks to see if it's a node that needs to be run.
